@@ -1292,6 +1292,19 @@ class VM:
         """Create a bound array method."""
         vm = self  # Reference for closures
 
+        def to_integer(value):
+            """ToIntegerOrInfinity of an argument (objects via ToPrimitive)."""
+            return to_integer_or_infinity(vm._to_number(value))
+
+        def relative_index(value, length, default):
+            """Relative index argument clamped to [0, length]."""
+            if value is UNDEFINED:
+                return default
+            idx = to_integer(value)
+            if idx < 0:
+                idx = max(0, length + idx)
+            return int(min(idx, length))
+
         def push_fn(*args):
             for arg in args:
                 arr.push(arg)
@@ -1382,19 +1395,12 @@ class VM:
             return acc
 
         def splice_fn(*args):
-            start = int(to_number(args[0])) if args else 0
-            delete_count = (
-                int(to_number(args[1])) if len(args) > 1 else len(arr._elements) - start
-            )
+            length = len(arr._elements)
+            start = relative_index(args[0], length, 0) if args else 0
+            delete_count = to_integer(args[1]) if len(args) > 1 else length - start
             items = list(args[2:]) if len(args) > 2 else []
 
-            length = len(arr._elements)
-            if start < 0:
-                start = max(0, length + start)
-            else:
-                start = min(start, length)
-
-            delete_count = max(0, min(delete_count, length - start))
+            delete_count = int(max(0, min(delete_count, length - start)))
 
             # Create result array with deleted elements
             result = JSArray()
@@ -1417,20 +1423,20 @@ class VM:
 
         def indexOf_fn(*args):
             search = args[0] if args else UNDEFINED
-            start = int(to_number(args[1])) if len(args) > 1 else 0
-            if start < 0:
-                start = max(0, len(arr._elements) + start)
-            for i in range(start, len(arr._elements)):
+            length = len(arr._elements)
+            start = relative_index(args[1], length, 0) if len(args) > 1 else 0
+            for i in range(start, length):
                 if vm._strict_equals(arr._elements[i], search):
                     return i
             return -1
 
         def lastIndexOf_fn(*args):
             search = args[0] if args else UNDEFINED
-            start = int(to_number(args[1])) if len(args) > 1 else len(arr._elements) - 1
+            length = len(arr._elements)
+            start = to_integer(args[1]) if len(args) > 1 else length - 1
             if start < 0:
-                start = len(arr._elements) + start
-            for i in range(min(start, len(arr._elements) - 1), -1, -1):
+                start = length + start
+            for i in range(int(max(-1, min(start, length - 1))), -1, -1):
                 if vm._strict_equals(arr._elements[i], search):
                     return i
             return -1
@@ -1486,12 +1492,9 @@ class VM:
             return result
 
         def slice_fn(*args):
-            start = int(to_number(args[0])) if args else 0
-            end = int(to_number(args[1])) if len(args) > 1 else len(arr._elements)
-            if start < 0:
-                start = max(0, len(arr._elements) + start)
-            if end < 0:
-                end = max(0, len(arr._elements) + end)
+            length = len(arr._elements)
+            start = relative_index(args[0], length, 0) if args else 0
+            end = relative_index(args[1], length, length) if len(args) > 1 else length
             result = JSArray()
             result._elements = arr._elements[start:end]
             return result
@@ -1502,10 +1505,9 @@ class VM:
 
         def includes_fn(*args):
             search = args[0] if args else UNDEFINED
-            start = int(to_number(args[1])) if len(args) > 1 else 0
-            if start < 0:
-                start = max(0, len(arr._elements) + start)
-            for i in range(start, len(arr._elements)):
+            length = len(arr._elements)
+            start = relative_index(args[1], length, 0) if len(args) > 1 else 0
+            for i in range(start, length):
                 if vm._strict_equals(arr._elements[i], search):
                     return True
             return False
